@@ -150,6 +150,10 @@ class Program:
         self._link()
         self._attr_type_cache: Dict[Tuple[str, str], Set[ClassInfo]] = {}
         self._attr_busy: Set[Tuple[str, str]] = set()
+        # code moved into helpers that did not exist in the pinned tree is analysed where it came from
+        from .inline import Inliner
+        self.inliner = Inliner(self)
+        self.inliner.run()
 
     # -- loading ----------------------------------------------------------
     def _load(self) -> None:
@@ -360,6 +364,8 @@ class Program:
                     "pygradflow.step.box_solver")
 
     def in_scope(self, obj) -> bool:
+        if getattr(obj, "absorbed", False):
+            return False  # a new helper whose body was expanded into all of its callers (inline.py)
         name = obj.module.name if hasattr(obj, "module") else obj.name
         return not any(name == p or name.startswith(p + ".") for p in self.OUT_OF_SCOPE)
 
@@ -727,7 +733,7 @@ class Program:
     # -- iteration helpers --------------------------------------------------
     def iter_functions(self, prefix: str = PKG) -> Iterator[FuncInfo]:
         for q, f in self.functions.items():
-            if q.startswith(prefix):
+            if q.startswith(prefix) and not getattr(f, "absorbed", False):
                 yield f
 
 
